@@ -120,9 +120,11 @@ impl StateMachine<'_> {
                 // is not a hunk line, but the parser does not have a more accurate state corresponding
                 // to this.
                 self.painter.paint_buffered_minus_and_plus_lines();
+                // Not the raw line: git terminates this line with a color reset sequence when
+                // it colors the diff, which must not make a difference to the output.
                 self.painter
                     .output_buffer
-                    .push_str(&tabs::expand(&self.raw_line, &self.config.tab_cfg));
+                    .push_str(&tabs::expand(&self.line, &self.config.tab_cfg));
                 self.painter.output_buffer.push('\n');
                 State::HunkZero(Unified, None)
             }
